@@ -466,6 +466,11 @@ var twiceCases = []TwiceCase{
 	{"[next(), next(), next()]", "", "[1, 2, 3]"}, {"next() + next() * 10", "", "21"}, {"next() == next()", "", "false"}, {"next() ? [next(), next()] : 0", "", "[2, 3]"},
 	{"bump(1) ? bump(1) : bump(1)", "", "2"}, {"!next() ? next() : next() + 10", "", "12"}, {"rec('') ? rec('') : rec('e')", " e", "\"e\""}, {"(next(), next()) ? next() : 0", "", "3"},
 	{"m.f() ? m.f() : 0", "", "2"}, {"next() ? (next() ? next() : 0) : 0", "", "3"},
+	// a selection standing where its value is dropped (a non-last operand of a sequence) still evaluates its selected operand, and only that
+	{"(1 ? rec('a') : rec('b')), rec('z')", "a z", "\"z\""}, {"(0 ? rec('a') : rec('b')), rec('z')", "b z", "\"z\""}, {"(1 ? ($x = 5) : ($x = 7)), $x", "", "5"}, {"(0 ? ($x = 5) : ($x = 7)), $x", "", "7"},
+	{"(1 && rec('a')), rec('z')", "a z", "\"z\""}, {"(0 || rec('b')), rec('z')", "b z", "\"z\""}, {"(null ?? rec('n')), rec('z')", "n z", "\"z\""},
+	{"(1 ? next() : 0), (1 ? next() : 0), next()", "", "3"}, {"(1 ? (1 ? rec('i') : 0) : 0), (0 ? 0 : rec('j')), 9", "i j", "9"},
+	{"(1 ? [rec('l')] : 0), 2", "l", "2"}, {"(1 ? -next() : 0), next()", "", "2"}, {"(1 ? typeof rec('q') : 0), 3", "q", "3"},
 }
 
 var c06Twice = core.Mon(c06, "evaluated-as-often-as-written", func(w *core.W, c *TwiceCase) {
